@@ -138,7 +138,11 @@ def parse_objdump(text, nslots, slot, x86):
             cur = int(m.group(1))
             lines = []
             continue
-        if ln.startswith("Disassembly") or "<Lend>" in ln:
+        if ln.startswith("Disassembly"):
+            continue
+        if re.match(r"^[0-9a-f]+ <Lend>:", ln):
+            flush()
+            cur = None
             continue
         if re.match(r"^[0-9a-f]+ <", ln):      # another symbol ($d.N, ...): keep collecting for the slot
             continue
